@@ -44,3 +44,5 @@ pub proof fn lemma_string_of_utf8(s: String)
     lemma_utf8_injective(s@, s1@);
     axiom_string_ext(s, s1);
 }
+pub open spec fn string_of_chars(c: Seq<char>) -> String { choose|s: String| s@ == c }
+pub proof fn lemma_string_of_chars(s: String) ensures string_of_chars(s@) == s { axiom_string_ext(s, string_of_chars(s@)); }
